@@ -46,7 +46,7 @@ def gen_recs(rng, tnext, n=None, alphabet=ALPHABET):
     for _ in range(n):
         k = rng.choice(alphabet)
         tnext[0] += rng.choice([0, 1, 1, 2, 7, 1000, 1001])
-        out.append("%d@%d" % (k, tnext[0]))
+        out.append("%d@%d%s" % (k, tnext[0], "!" if rng.random() < 0.03 else ""))
     return ",".join(out)
 
 
@@ -144,7 +144,7 @@ def oracle(case, obs, want_c07=False):
                 if L["hashok"] != "1" and "!" not in case:
                     fail("commit_is_hash", st, op, log=i, detail="a stored record's commit is not the SHA-256 of its bytes")
                 if L["hashok"] != "1" and "!" in case:
-                    fail("commit_is_hash", st, op, log=i, forged_input=True, detail="a forged record (commit != SHA-256(bytes)) handed to the log was stored as is")
+                    fail("commit_is_hash", st, "any", log="any", forged_input=True, detail="a forged record (commit != SHA-256(bytes)) handed to the log was stored as is")
         if st == 0:
             continue
         prv = steps[st - 1]
